@@ -21,7 +21,7 @@ func TestC06RefusedChangesNothing(t *testing.T) {
 	defer vt.Watch("TestC06RefusedChangesNothing", 120*time.Second)()
 	rec := vt.For("C06")
 	rec.Rule("a valid pool session (host with live connection, billed client with peers and balance, linked wallet with credit; generated number of further keep-alives/advances; memory/badger; deposits) into which one refused request is injected: endpoint in {connect,update,peer,host,client,pool_addNode,pool_withdraw} x refusal in {signature by another key, one signature byte flipped, short/empty/garbage signature, stale nonce, replayed nonce} aimed at an existing identity, with a FRESH FUTURE nonce where the refusal is about the signature; oracle: full digest (every node record incl. LastSeen, peers, every balance, wallet links, Stats, NumRemotes, every host's whitelist/disconnect log, settle log) identical before/after, then the victim's own request with a nonce LOWER than the forged one (fresh, above its last accepted) is accepted; non-trivial = every case (refusal injected after the victim has state); distinct by (driver, endpoint, refusal kind, session shape)")
-	rapid.Check(t, func(rt *rapid.T) {
+	check(t, func(rt *rapid.T) {
 		rapid.SyncTest(rt, func(rt *rapid.T) {
 			cfg := sessCfg{Driver: rapid.SampledFrom([]string{"memory", "badger"}).Draw(rt, "driver"), Price: big.NewInt(1000), Interval: time.Minute, Deposits: rapid.Bool().Draw(rt, "deposits")}
 			if rapid.Bool().Draw(rt, "withMin") {
